@@ -76,6 +76,10 @@ func simplifyCurve(curve Path,
 	if len(curve) == 0 {
 		return nil
 	}
+	if len(curve) < 3 {
+		// Nothing to simplify; the scan below needs at least three vertices.
+		return append(out, curve...)
+	}
 
 	i := 0
 	for {
